@@ -35,7 +35,7 @@ func TestC15PrometheusListener(t *testing.T) {
 			// what startServers does for this listener
 			proxy.ListenAndServePrometheus(cfg.Listen[0], cfg.Metrics.Prometheus, nil)
 		}()
-		defer proxy.CloseProxy(addr)
+		defer flex(proxy.CloseProxy, addr, time.Second)
 		up := false
 		for i := 0; i < 400 && !up; i++ {
 			select {
